@@ -1,5 +1,5 @@
 """C10 - the free list follows the documented policy and stays well formed (policy structure)."""
-import re
+import re, os, sys
 from engine import rule, Ob, key_of, EXPLAIN, ASSUME
 from sym import Lin, add, sub, const, tag, show, is_const, as_lin, implied_facts, struct_get
 from util import *
@@ -223,6 +223,9 @@ def f4(ctx):
             # `a.checked_sub(b)` is Some exactly when b <= a: that comparison is emitted next to the discriminant fact and carries it
             if f[0] == "discr" and tag(f[1]) == "call" and isinstance(f[1][1], str) and f[1][1].endswith("checked_sub"):
                 return None
+            # likewise Some(v).filter(|_| c) / c.then_some(v): its discriminant says c, and c is emitted next to it; the discriminant of a literal says nothing
+            if f[0] == "discr" and (tag(f[1]) == "variant" or (tag(f[1]) == "filter" and tag(f[1][1]) == "variant")):
+                return None
             return strip(f)
 
         def accept_dnf(b_, ev_, r_, is_accept, is_reject):
@@ -237,6 +240,7 @@ def f4(ctx):
                 base = D.block_dnf(ev_, r_, b_, r["bb"], lit=lit)
                 if base is None:
                     return None, 0
+                base = D.expand_bool_joins(ev_, r_, b_, base, post=lit)
                 if is_accept(v):
                     n_acc += 1
                     out.extend(base)
@@ -244,6 +248,12 @@ def f4(ctx):
                     n_acc += 1
                     ls = frozenset(strip(f) for f in implied_facts([(v, ("eq", 1))]))
                     out.extend(c | ls for c in base)
+                elif tag(v) == "phi" and len(v) > 4 and v[4]:
+                    # a boolean joined from several exits (of an inlined helper, of an `&&`): true along an exit iff what that exit brings is
+                    n_acc += 1
+                    for a in D.bool_dnf(ev_, r_, b_, v, True):
+                        ls = frozenset(x for x in (lit(f) for f in a) if x is not None)
+                        out.extend(c | ls for c in base if not D.conj_unsat(c | ls))
                 elif (tag(v) == "variant-is" and tag(v[1]) == "vsum" and len(v[1]) > 3 and v[1][3][0] == "from" and len(v[1][3][1]) == 1
                       and str(v[1][3][1][-1]).startswith(b_.name + "@")):
                     # `helper(..).is_continue()` with the helper's exits inlined: accepted along the exits that built that variant
@@ -258,7 +268,7 @@ def f4(ctx):
                         out.extend(d_)
                 else:
                     return None, 0
-            return out, n_acc
+            return D.expand_bool_joins(ev_, r_, b_, out, post=lit), n_acc
         A, n1 = accept_dnf(bv, ev1, r1, lambda v: v == const(1), lambda v: v == const(0))
         B, n2 = accept_dnf(bt, ev2, r2, lambda v: tag(v) == "variant" and v[2] == "Some", lambda v: tag(v) == "variant" and v[2] == "None")
         ok = A is not None and B is not None and n1 >= 1 and n2 >= 1
@@ -267,6 +277,10 @@ def f4(ctx):
             A, B = D.dnf_simplify(A), D.dnf_simplify(B)
             ab, ba = D.dnf_implies(A, B), D.dnf_implies(B, A)
             ok = ab and ba
+            if not ok and os.environ.get("VERIF_DEBUG_F4"):
+                for nm, d_ in (("A", A), ("B", B)):
+                    for c in d_:
+                        sys.stderr.write("%s: %s\n" % (nm, sorted(((x[0], show(x[1])[:90], repr(x[2:])[:120]) for x in c), key=repr)))
             why = "accept conditions imply each other (%d / %d disjunct(s))" % (len(A), len(B)) if ok else \
                   "validate_segment accepts %s try_new_segment does%s" % ("where" if not ab else "not everywhere", " not" if not ab else "")
         yield Ob(key_of("C10-F4", "%s::validate_segment|try_new_segment" % fl, "same-conditions"), ok, why, bv.loc())
